@@ -17,7 +17,7 @@ import numpy as np
 from symx.runner import Family, run_check
 from symx.core import Sym, PathAbort
 from symx import fsmodel
-from symx.fsmodel import ModelEnv, Killed, Scheduler
+from symx.fsmodel import ModelEnv, Killed, Scheduler, KillState
 
 
 # ---------------------------------------------------------------------------------------------- real-FS twin (replay)
@@ -28,11 +28,12 @@ def good_bytes(ds):
     return "".join("%d,%d.%03d\n" % (i, k + i % 7, i % 1000) for i in range(1800)).encode()
 
 
-class RealEnv:
+class RealEnv(KillState):
     """Same step discipline as ModelEnv on a real temporary directory (used for the float64/real replay)."""
 
     def __init__(self, ctx):
         self.ctx = ctx
+        self.init_kill()
         self.root = tempfile.mkdtemp(prefix="c19-replay-")
         self.data_home = os.path.join(self.root, "home")
         self.env_set = True
@@ -49,6 +50,8 @@ class RealEnv:
 
     def restart(self):
         self.frozen, self.kill_at, self.step, self.attempts = False, None, 0, 0
+        self.kill_tid = self.kill_at_t = None
+        self.init_kill()
         self.attempt_outcome = lambda i: 0
         self.payload_klass = lambda i: 0
 
@@ -61,6 +64,7 @@ class RealEnv:
         if self.kill_at is not None and self.kill_at == self.step:
             self.frozen = True
             raise Killed(what)
+        self.thread_kill_check(what)
         return True
 
     def payload_bytes(self, ds, klass):
@@ -178,13 +182,14 @@ class RealEnv:
 
             def __init__(s, p):
                 s.f, s.buf, s.closed, s.name = real_open(p, "wb"), [], False, p
+                s.owner = env.cur_tid()
 
             def write(s, b):
                 s.buf.append(bytes(b))
                 return len(b)
 
             def _flush(s):
-                if not env.frozen:
+                if not env.owner_dead(s.owner):
                     s.f.write(b"".join(s.buf))
                 s.f.close()
                 s.closed = True
@@ -634,6 +639,73 @@ class Concurrent(Family):
             env.cleanup()
 
 
+class ConcurrentKill(Family):
+    name = "concurrent-loaders-one-killed"
+    doc = ("two loaders of the same dataset under every interleaving of the calls that touch shared paths, while loader 0 is "
+           "killed before an arbitrary (symbolic) one of its own effectful calls; then a new process loads again")
+    differential = False
+    split_depth = 6
+
+    def configs(self, tier):
+        return [{"present": p, "dea": d} for p in (False, True) for d in ((False,) if tier == "quick" else (False, True)) if (p or not d)]
+
+    def run(self, ctx, inst, present, dea):
+        env = make_env(ctx)
+        try:
+            ds = "dsA"
+            remote = register(env, ds)
+            folder, fname = "fam", "dsA-cache"
+            fp = final_path(env, folder, fname)
+            n = 2
+            with env.installed() as base:
+                if present:
+                    call(base, remote, fname, folder)
+                    env.restart()
+                shared = shared_paths(ctx, n, present) | {fp}
+                env.shared = shared
+                k = ctx.int("kill_loader0_before_its_call", 1, 14)
+                env.kill_tid, env.kill_at_t = 0, k
+                picks = []
+
+                def choose(alive):
+                    if len(alive) == 1:
+                        return alive[0]
+                    v = ctx.int("sched%d" % len(picks), 0, n - 1)
+                    picks.append(v)
+                    for t in alive[:-1]:
+                        if bool(v == t):
+                            return t
+                    ctx.assume(v == alive[-1])
+                    return alive[-1]
+
+                sch = Scheduler(choose)
+                env.sched = sch
+                try:
+                    results, errors = sch.run([lambda: base.load_csv_dataset_from_remote(
+                        remote=remote, dataset_filename=fname, dataset_folder=folder, delay=0.0,
+                        download_even_if_available=dea) for _ in range(n)])
+                finally:
+                    env.sched = None
+                killed = 0 in env.dead
+                info = {"present": present, "dea": dea, "loader0_killed": killed, "loader0_calls": env.tstep.get(0),
+                        "errors": {i: type(e).__name__ + ":" + str(e)[:80] for i, e in errors.items()}}
+                ctx.claim("killed-loader-stops-and-only-it", (set(errors) == {0} and isinstance(errors[0], Killed)) if killed else not errors, info)
+                ctx.claim("surviving-loader-returns-verified-data", 1 in results and is_verified(ctx, env, results[1], ds), info)
+                if not killed:
+                    ctx.claim("every-loader-returns-verified-data", 0 in results and is_verified(ctx, env, results[0], ds), info)
+                after = env.cache_state(fp, ds)
+                ctx.claim("after-kill:cache-complete-verified", after == "complete-verified", dict(info, state=after))
+                del results, errors
+                env.restart()
+                env.shared = set()
+                n0 = env.net_calls
+                st2, res2 = call(base, remote, fname, folder)
+                ctx.claim("after-kill:later-load-succeeds-with-verified-data", st2 == "ok" and is_verified(ctx, env, res2, ds), dict(info, st2=st2))
+                ctx.claim("after-kill:later-load-needs-no-network", env.net_calls == n0, dict(info, net=env.net_calls - n0))
+        finally:
+            env.cleanup()
+
+
 META = {
     "explanation": "The real load_csv_dataset_from_remote / _fetch_remote / _sha256 (and, in one family, the package's own "
                    "fetch_* functions) run against an in-memory file system installed in datasets/_base.py's namespace. "
@@ -667,4 +739,4 @@ if __name__ == "__main__":
     ap = argparse.ArgumentParser()
     ap.add_argument("--tier", default="quick")
     a = ap.parse_args()
-    sys.exit(run_check("C19", "remote cache", [Faults(), Unpack(), DataHome(), Kills(), TwoDatasets(), Concurrent()], a.tier, META))
+    sys.exit(run_check("C19", "remote cache", [Faults(), Unpack(), DataHome(), Kills(), TwoDatasets(), Concurrent(), ConcurrentKill()], a.tier, META))
